@@ -736,7 +736,7 @@ type witness struct {
 }
 
 func Run(r *ev.Run, replay string) {
-	r.Rule = "seeded lineage generator writes real pom.xml files (project, 0-4 ancestors, 0-3 imported BOMs with 0-2 ancestors each, nested imports; properties chained/overridden in child, ancestor or profile; project.*/pom.*/bare built-ins; profiles by default/JDK/OS; dependencyManagement with import scope; duplicates; exclusions, scope, optional, type, classifier). Library: the pipeline of examples/go/maven_parse_resolve (root profiles first as in mavenRequirements) on those files; reference: Maven 3.8.7 DefaultModelBuilder on the same files, java.version=11.0.8, os linux/amd64/5.10.0-26-cloud-amd64. Ordered lists of (g,a,v,type,classifier,scope,optional,exclusions) of dependencies and managed dependencies are compared. Non-trivial = Maven's result holds a dependency whose version is a managed one or mentions a property defined more than once in the chain. Termination clause: random property tables (<=8 names, <=3 placeholders per value, cycles, self references, unknown keys) through Project.Interpolate under a watchdog."
+	r.Rule = "seeded lineage generator writes real pom.xml files (project, 0-4 ancestors, 0-3 imported BOMs with 0-2 ancestors each, nested imports; properties chained/overridden in child, ancestor or profile, and properties named like built-in expressions (project.version, pom.groupId, project.parent.version, version, parent.version ...) at every level; project.*/pom.*/bare built-ins; profiles by default/JDK/OS; dependencyManagement with import scope; duplicates; exclusions, scope, optional, type, classifier). Library: the pipeline of examples/go/maven_parse_resolve (root profiles first as in mavenRequirements) on those files; reference: Maven 3.8.7 DefaultModelBuilder on the same files, java.version=11.0.8, os linux/amd64/5.10.0-26-cloud-amd64. Ordered lists of (g,a,v,type,classifier,scope,optional,exclusions) of dependencies and managed dependencies are compared. Non-trivial = Maven's result holds a dependency whose version is a managed one or mentions a property defined more than once in the chain. Termination clause: random property tables (<=8 names, <=3 placeholders per value, cycles, self references, unknown keys) through Project.Interpolate under a watchdog."
 	r.Assumptions = []string{
 		"Maven 3.8.7 is the reference (the only Maven available); lineages it rejects at VALIDATION_LEVEL_MINIMAL are discarded and counted",
 		"equality clause generates only placeholders that resolve in the chain that uses them (the library drops a dependency with an unresolved placeholder, Maven keeps it verbatim: outside the statement's supported subset)",
@@ -845,9 +845,12 @@ func Run(r *ev.Run, replay string) {
 	r.Gate("lineages:nontrivial", compared*6/10)
 	r.GateNontrivial(compared * 55 / 100)
 	for _, f := range []string{"profile:default", "profile:jdk", "profile:jdk-range", "profile:os", "import", "import:nested", "import:from-ancestor", "parent-depth:4", "boms:3",
-		"exclusions", "classifier", "type", "prop:chained", "prop:override-in-chain", "prop:override-in-profile", "version:builtin", "dup-in-file:deps", "dup-in-file:mgmt", "deps:in-profile", "mgmt:in-profile", "inherit:version", "profile:jdk-rare", "bom:parent-builtin"} {
+		"exclusions", "classifier", "type", "prop:chained", "prop:override-in-chain", "prop:override-in-profile", "version:builtin", "dup-in-file:deps", "dup-in-file:mgmt", "deps:in-profile", "mgmt:in-profile", "inherit:version", "profile:jdk-rare", "bom:parent-builtin",
+		"prop:named-like-builtin:prefixed-used", "prop:named-like-builtin:bare-used", "prop:named-like-builtin:in-profile", "prop:named-like-builtin:in-ancestor", "prop:named-like-builtin:in-bom"} {
 		r.Gate("feature:"+f, 5)
 	}
+	r.Gate("feature:prop:named-like-builtin:prefixed-used", int64(total)/20)
+	r.Gate("feature:prop:named-like-builtin:bare-used", int64(total)/40)
 	r.Gate("nontrivial:managed-version", 50)
 	r.Gate("nontrivial:overridden-property", 20)
 	r.Gate("interpolate:tables-with-cycle", 1000)
